@@ -93,6 +93,9 @@ structure World where
   /-- `additional_protocol_loaders` in dict order (protocol name, loader number ≥ 1); `none` = not given -/
   protocols : Option (List (Str × Nat))
   resolve : Nat → Str → Option Loc → Option Loc
+  /-- the entry `name` of the folder at `l` itself (`folder path / name`), as the file system has it — what
+      "folder name matching" means.  The loader does not use this: it re-reads the name as a specification. -/
+  childLoc : Loc → Str → Option Loc := fun _ _ => none
 
 /-! ### make_loader / ProtocolLoader -/
 
